@@ -7,7 +7,7 @@ from ..core import Violation
 
 ID = "C11"
 BUDGET = {"quick": 40, "thorough": 600}
-MAX_RUNS = {"quick": 600, "thorough": 100000}
+MAX_RUNS = {"quick": 1500, "thorough": 100000}
 TECHNIQUE = "deterministic simulation (component lane): the real make_fragments/reassemble/timer driven over a seeded lossy, duplicating, reordering, delaying channel on the virtual clock, against a reference reassembler"
 RULE = ("each run executes 40 explicit scenarios in one process: frames (body 0..65535, address none/IPv4/IPv6/domain) fragmented by the real make_fragments at MTUs from 5 up "
         "(biased to small values and quinn's), ids started near the 65535 wrap, channel schedules with permutation, duplication before and after completion, interleaving "
